@@ -2,6 +2,7 @@
 package mon
 
 import (
+	"sync"
 	"bytes"
 	"fmt"
 	"reflect"
@@ -461,9 +462,26 @@ func clonePayloads(in []lorawan.Payload) []lorawan.Payload {
 // key16 draws a 128-bit key: mostly random, sometimes the all-zero key, the
 // all-ones key, or the key this stream produced last (process-level caches
 // keyed on the wrong thing only show with special or repeated keys).
+// keys this process has used, in order of first use (a device fleet: many keys, and old ones come back)
+var (
+	keyHistMu sync.Mutex
+	keyHist   [][16]byte
+)
+
 func key16(r *core.RNG) [16]byte {
 	var k [16]byte
 	switch r.Intn(16) {
+	case 4:
+		// a key this process used long ago (more than 256 keys back): whatever the library keeps per key must still be right
+		keyHistMu.Lock()
+		if n := len(keyHist); n >= 400 {
+			k = keyHist[r.Intn(n-300)]
+			keyHistMu.Unlock()
+			r.LastKey, r.HasLastKey = k, true
+			return k
+		}
+		keyHistMu.Unlock()
+		r.Fill(k[:])
 	case 0:
 		// all-zero
 	case 1:
@@ -483,6 +501,11 @@ func key16(r *core.RNG) [16]byte {
 		r.Fill(k[:])
 	}
 	r.LastKey, r.HasLastKey = k, true
+	keyHistMu.Lock()
+	if len(keyHist) < 20000 {
+		keyHist = append(keyHist, k)
+	}
+	keyHistMu.Unlock()
 	return k
 }
 
